@@ -76,16 +76,39 @@ def gen_label_program(rnd, arith=False):
             rd = progs.creg(rnd)
             v = rnd.choice([0, 5, 2047, 2048, -2048, 0x12345678])
             body.append(L('    li %s, %d' % (progs.reg_txt(rnd, rd), v), 'li', 'li', [rd], extra=v))
-        elif k < 0.88:
-            body.append(L('    align %d' % rnd.choice([2, 4, 8, 16, 64]), 'align', 'align', [rnd.choice([4])]))
+        elif k < 0.86:
+            body.append(L('    align %d' % rnd.choice([1, 1, 2, 4, 8, 16, 64]), 'align', 'align', [rnd.choice([4])]))
             body[-1].ops = [int(body[-1].text.split()[1])]
-        elif k < 0.94:
+        elif k < 0.89:
+            # text whose UTF-8 length differs from its character count, re-aligned so that code may follow
+            t = rnd.choice(['héllo', '€', 'naïve café', '日本語', '😀 ok', 'añ', 'ß', 'plain'])
+            body.append(L('    string ' + t, 'string', 'string', [t]))
+            body.append(L('    align 4', 'align', 'align', [4]))
+        elif k < 0.92:
+            # pseudo-instructions that only become compressible after their expansion (second pass)
+            a, b = progs.creg(rnd), progs.creg(rnd)
+            body.append(rnd.choice([L('    mv x%d, x%d' % (a, b), 'unary', 'mv', [a, b]), L('    ret', 'p0', 'ret'),
+                                    L('    nop', 'p0', 'nop'), L('    li x%d, %d' % (a, rnd.randrange(-32, 32)), 'li', 'li', [a], extra=None)]))
+        elif k < 0.95:
             body += nops(rnd.choice([1, 3, 7, 15, 16, 100, 511, 512, 513, 1023, 1024]))
         else:
             body.append(L('    %s %s' % (rnd.choice(['call', 'tail', 'j']), lab), 'pjump', None, [], lab))
             body[-1].name = body[-1].text.split()[0]
+    far = rnd.random() < 0.3
+    if far:
+        # far call / tail (the target looks 2 MiB away while the decisions are taken) in front of later-shrinking items
+        for _ in range(rnd.randrange(1, 3)):
+            nm = rnd.choice(['call', 'tail'])
+            body.insert(rnd.randrange(0, len(body) + 1), L('    %s FAR0' % nm, 'pjump', nm, [], 'FAR0'))
     for lab in labels:
-        body.insert(rnd.randrange(0, len(body) + 1), L('%s:' % lab, 'label', lab))
+        pos = rnd.randrange(0, len(body) + 1)
+        if rnd.random() < 0.4:
+            hot = [i + 1 for i, l in enumerate(body) if l.kind in ('pjump', 'string', 'align', 'unary', 'p0')]
+            if hot:
+                pos = rnd.choice(hot)           # directly behind an item whose size is delicate
+        body.insert(pos, L('%s:' % lab, 'label', lab))
+    if far:
+        body = [L('FAR0:', 'label', 'FAR0'), L('    align 0x200000', 'align', 'align', [0x200000])] + body
     return body
 
 
